@@ -9,25 +9,26 @@
     in this file mentions the model.
 
     Identifiers: [i] instrument handle, [n] measurement / span id (unique per
-    call), [r] callback registration, [t] tracer handle. *)
-From Coq Require Import List Arith Bool Lia.
+    call), [r] callback registration, [t] tracer handle; binary numbers so that
+    recorded histories with thousands of events are cheap to judge. *)
+From Coq Require Import List Arith NArith Bool Lia.
 Import ListNotations.
 
 Inductive ev :=
 (* meter side, global API *)
 | EInstallCall | EInstallRet                  (* SetMeterProvider called / returned *)
-| EInstRet (i : nat)                          (* an instrument constructor returned handle i *)
-| ERecCall (i n : nat) | ERecRet (n : nat)    (* measurement n on instrument i: call / return *)
-| ERegCall (r : nat) | ERegRet (r : nat)      (* RegisterCallback: call / returned registration r *)
-| EUnregCall (r : nat) | EUnregRet (r : nat)  (* r.Unregister(): call / return *)
+| EInstRet (i : N)                          (* an instrument constructor returned handle i *)
+| ERecCall (i n : N) | ERecRet (n : N)    (* measurement n on instrument i: call / return *)
+| ERegCall (r : N) | ERegRet (r : N)      (* RegisterCallback: call / returned registration r *)
+| EUnregCall (r : N) | EUnregRet (r : N)  (* r.Unregister(): call / return *)
 (* meter side, at the SDK *)
-| ESdkRec (n : nat)                           (* measurement n reached the SDK *)
-| ESdkReg (r : nat) | ESdkUnreg (r : nat)     (* callback of r registered with / unregistered from the SDK *)
+| ESdkRec (n : N)                           (* measurement n reached the SDK *)
+| ESdkReg (r : N) | ESdkUnreg (r : N)     (* callback of r registered with / unregistered from the SDK *)
 (* tracer side *)
 | ETInstallCall | ETInstallRet                (* SetTracerProvider *)
-| ETracerRet (t : nat)                        (* Tracer(...) returned handle t *)
-| ESpanCall (t n : nat) | ESpanRet (n : nat)  (* span n started on tracer t: call / return *)
-| ESdkSpan (n : nat).                         (* span n was created by the SDK tracer *)
+| ETracerRet (t : N)                        (* Tracer(...) returned handle t *)
+| ESpanCall (t n : N) | ESpanRet (n : N)  (* span n started on tracer t: call / return *)
+| ESdkSpan (n : N).                         (* span n was created by the SDK tracer *)
 
 Scheme Equality for ev.
 
@@ -53,46 +54,46 @@ Fixpoint after (e : ev) (h : history) : history :=
 (** ** Clauses about one callback registration [r] *)
 
 (** Registered with the SDK at most once; never unregistered more often than registered. *)
-Definition reg_at_most_once (r : nat) (h : history) : bool :=
+Definition reg_at_most_once (r : N) (h : history) : bool :=
   (count (ESdkReg r) h <=? 1) && (count (ESdkUnreg r) h <=? count (ESdkReg r) h).
 
 (** Once installation has returned, a registration that was handed to the user
     and on which Unregister was never called is registered with the SDK exactly once
     (and still is). *)
-Definition reg_exactly_once (r : nat) (h : history) : bool :=
+Definition reg_exactly_once (r : N) (h : history) : bool :=
   implb (inb (ERegRet r) h && inb EInstallRet h && negb (inb (EUnregCall r) h))
         ((count (ESdkReg r) h =? 1) && (count (ESdkUnreg r) h =? 0)).
 
 (** A registration whose Unregister returned before installation began is never
     registered with the SDK. *)
-Definition unreg_before_install_never (r : nat) (h : history) : bool :=
+Definition unreg_before_install_never (r : N) (h : history) : bool :=
   implb (inb (EUnregRet r) (before EInstallCall h)) (count (ESdkReg r) h =? 0).
 
 (** When Unregister has returned the callback is not registered with the SDK
     (every SDK registration has been undone), and nothing happens to it at the SDK afterwards:
     it is never registered after its Unregister returned. *)
-Definition unreg_not_leaked (r : nat) (h : history) : bool :=
+Definition unreg_not_leaked (r : N) (h : history) : bool :=
   implb (inb (EUnregRet r) h)
         ((count (ESdkUnreg r) h =? count (ESdkReg r) h) &&
          (count (ESdkReg r) (after (EUnregRet r) h) =? 0) &&
          (count (ESdkUnreg r) (after (EUnregRet r) h) =? 0)).
 
-Definition reg_ok (r : nat) (h : history) : bool :=
+Definition reg_ok (r : N) (h : history) : bool :=
   reg_at_most_once r h && reg_exactly_once r h && unreg_before_install_never r h && unreg_not_leaked r h.
 
 (** ** Clauses about one measurement / span [n] *)
 
 (** Never duplicated. *)
-Definition rec_at_most_once (n : nat) (h : history) : bool := count (ESdkRec n) h <=? 1.
+Definition rec_at_most_once (n : N) (h : history) : bool := count (ESdkRec n) h <=? 1.
 
 (** A measurement whose call began after installation returned, and whose call has
     returned, reached the SDK (exactly once) -- whatever instrument it was made on
     (created before, during or after installation). *)
-Definition rec_forwarded (i n : nat) (h : history) : bool :=
+Definition rec_forwarded (i n : N) (h : history) : bool :=
   implb (inb (ERecCall i n) (after EInstallRet h) && inb (ERecRet n) h) (count (ESdkRec n) h =? 1).
 
-Definition span_at_most_once (n : nat) (h : history) : bool := count (ESdkSpan n) h <=? 1.
-Definition span_forwarded (t n : nat) (h : history) : bool :=
+Definition span_at_most_once (n : N) (h : history) : bool := count (ESdkSpan n) h <=? 1.
+Definition span_forwarded (t n : N) (h : history) : bool :=
   implb (inb (ESpanCall t n) (after ETInstallRet h) && inb (ESpanRet n) h) (count (ESdkSpan n) h =? 1).
 
 (** ** The whole specification, as a Prop over all identifiers ... *)
@@ -105,18 +106,25 @@ Definition Spec (h : history) : Prop := CallbacksExactlyOnce h /\ ForwardingAfte
 (** ... and as a checker over the identifiers that occur in the history (every
     clause is vacuous for an identifier that does not occur; proved in Proofs.v:
     [spec_ok h = true <-> Spec h]). *)
-Definition ev_regs (e : ev) : list nat :=
+Definition ev_regs (e : ev) : list N :=
   match e with
   | ERegCall r | ERegRet r | EUnregCall r | EUnregRet r | ESdkReg r | ESdkUnreg r => [r]
   | _ => []
   end.
-Definition ev_recs (e : ev) : list (nat * nat) :=
-  match e with ERecCall i n => [(i, n)] | ESdkRec n => [(0, n)] | _ => [] end.
-Definition ev_spans (e : ev) : list (nat * nat) :=
-  match e with ESpanCall t n => [(t, n)] | ESdkSpan n => [(0, n)] | _ => [] end.
+Definition ev_recs (e : ev) : list (N * N) :=
+  match e with ERecCall i n => [(i, n)] | ESdkRec n => [(0%N, n)] | _ => [] end.
+Definition ev_spans (e : ev) : list (N * N) :=
+  match e with ESpanCall t n => [(t, n)] | ESdkSpan n => [(0%N, n)] | _ => [] end.
+
+(** Duplicate-free list of identifiers (any list with the same members would do). *)
+Fixpoint dedup (l : list N) : list N :=
+  match l with
+  | [] => []
+  | x :: r => if existsb (N.eqb x) r then dedup r else x :: dedup r
+  end.
 
 Definition callbacks_ok (h : history) : bool :=
-  forallb (fun r => reg_ok r h) (flat_map ev_regs h).
+  forallb (fun r => reg_ok r h) (dedup (flat_map ev_regs h)).
 Definition forwarding_ok (h : history) : bool :=
   forallb (fun p => rec_at_most_once (snd p) h && rec_forwarded (fst p) (snd p) h) (flat_map ev_recs h) &&
   forallb (fun p => span_at_most_once (snd p) h && span_forwarded (fst p) (snd p) h) (flat_map ev_spans h).
@@ -125,5 +133,5 @@ Definition spec_ok (h : history) : bool := callbacks_ok h && forwarding_ok h.
 (** ** Well-formedness of a recorded history (harness sanity, not part of the property):
     measurement and registration identifiers are used by one call only. *)
 Definition ids_unique (h : history) : bool :=
-  forallb (fun r => (count (ERegCall r) h <=? 1) && (count (ERegRet r) h <=? 1)) (flat_map ev_regs h) &&
+  forallb (fun r => (count (ERegCall r) h <=? 1) && (count (ERegRet r) h <=? 1)) (dedup (flat_map ev_regs h)) &&
   forallb (fun p => count (ERecRet (snd p)) h <=? 1) (flat_map ev_recs h).
